@@ -17,3 +17,46 @@ CONTRACTS = [
         ensures=["n_count(node0) == n_count(node1)"],
     ),
 ]
+
+# --------------------------------------------------------------------------------------------------------------
+# Frame of the argparse emitter on the parameter dicts it is handed.  conformance.ground_truth parses the truth ONCE and hands
+# the very same interface description to the argparse, class and function emitters in turn, so what one emitter writes into a
+# parameter dict the next one reads: the class emitter writes `= <default>` iff the key 'default' is present.  The argparse
+# emitter (param2argparse_param, through _resolve_arg) may normalise 'typ' and supply an empty 'doc'; it must leave the
+# 'default' key exactly as it found it -- absent stays absent, present keeps its value.
+A = "cdd.shared.ast_utils"
+PREC = {"doc?": "str", "typ?": "opaque", "default?": "opaque"}
+
+_RREC = {"doc?": "str", "typ": "opaque", "default?": "opaque"}
+_FRAME = [
+    "present(_param, 'default') == present(old(param[1]), 'default')",
+    "implies(present(old(param[1]), 'default'), same(field(_param, 'default'), field(old(param[1]), 'default')))",
+    "present(_param, 'doc') == present(old(param[1]), 'doc')",
+]
+
+CONTRACTS += [
+    Contract(
+        A + ":_resolve_arg",
+        params={"action": "opaque", "choices": "opaque", "param": ["str", _RREC], "required": "bool", "typ": "opaque"},
+        # what a caller may rely on: only the 'typ' entry of the dict it passed is written, and that very dict comes back
+        modifies=["param[1].typ"],
+        result=["opaque", "opaque", "opaque", "opaque", ["str", "@param[1]"]],
+        ensures=[
+            # (the function deletes its own name `param`: the dict is named through the result, which IS that dict)
+            "is_obj(result[4][1], old(param[1]))",
+            "present(result[4][1], 'default') == present(old(param[1]), 'default')",
+            "implies(present(old(param[1]), 'default'), same(field(result[4][1], 'default'), field(old(param[1]), 'default')))",
+            "present(result[4][1], 'doc') == present(old(param[1]), 'doc')",
+        ],
+        loops={0: {"invariant": _FRAME + ["is_obj(_param, old(param[1]))"]}},
+        pure_results={"ast_parse_fix": "opaque", "walk": "opaque"},
+    ),
+    Contract(
+        A + ":param2argparse_param#frame-on-default",
+        src=A + ":param2argparse_param",
+        block=("name, _param = param", "_action, default, _required, _typ = "),
+        params={"param": ["str", PREC], "word_wrap": "bool", "emit_default_doc": "bool"},
+        ensures=_FRAME[:2] + ["is_obj(_param, old(param[1]))"],
+        pure_results={"extract_default": "opaque", "infer_type_and_default": "opaque"},
+    ),
+]
